@@ -18,7 +18,9 @@
 use ark_ec::short_weierstrass::{self as sw, SWCurveConfig, SWFlags};
 use ark_ec::twisted_edwards::{self as te, MontCurveConfig, TECurveConfig, TEFlags};
 use ark_ec::CurveConfig;
-use ark_ff::fields::{Fp128, Fp192, Fp256, Fp64, MontBackend, MontConfig};
+use ark_ff::fields::fp6_2over3::{Fp6 as Fp6b, Fp6Config as Fp6bConfig};
+use ark_ff::fields::fp6_3over2::{Fp6, Fp6Config};
+use ark_ff::fields::{Fp128, Fp192, Fp2, Fp256, Fp2Config, Fp3, Fp3Config, Fp4, Fp4Config, Fp64, MontBackend, MontConfig};
 use ark_ff::{Field, MontFp, PrimeField, Zero};
 use core::cmp::Ordering;
 use ark_serialize::{
@@ -130,7 +132,13 @@ fn de_flags<F: Field, FL: ark_serialize::Flags>(bytes: &[u8], code: fn(FL) -> u6
             let consumed = bytes.len() - rd.len();
             let mut re = Vec::new();
             x.serialize_with_flags(&mut re, f).unwrap();
-            ok(vec![coords(&x), vec![from_u64(code(f))], num(consumed), bytes_arg(&re)])
+            ok(vec![
+                coords(&x),
+                vec![from_u64(code(f))],
+                num(consumed),
+                bytes_arg(&re),
+                num(x.serialized_size_with_flags::<FL>()),
+            ])
         },
         Err(e) => err(kind(&e)),
     }
@@ -201,7 +209,7 @@ fn run_field<F: Field>(op: &str, a: &[Arg]) -> Vec<Arg> {
                     let consumed = bytes.len() - rd.len();
                     let mut re = Vec::new();
                     x.serialize_with_mode(&mut re, c).unwrap();
-                    ok(vec![coords(&x), num(consumed), bytes_arg(&re)])
+                    ok(vec![coords(&x), num(consumed), bytes_arg(&re), num(x.serialized_size(c))])
                 },
                 Err(e) => err(kind(&e)),
             }
@@ -451,6 +459,51 @@ te_curve!(T256b, F256e, R256, "1", "-1",
     "53322614531946817034109513010072318691192807935685121481147686512563804750650", 4,
     "21711016731996786641919559689128982722488122124807605757398297001483711800316", "0", "2");
 
+// ---- extension towers over base fields whose top byte cannot hold the flags (bits = 0 / 7 mod 8), and curves over
+// them.  Constants derived by props/C09/mkext.py, which rewrites the block between the markers.
+macro_rules! sw_curve {
+    ($cfg:ident, $fq:ty, $fr:ty, $a:expr, $b:expr, $gx:expr, $gy:expr, $h:expr, $hinv:tt) => {
+        #[derive(Clone, Default, PartialEq, Eq)]
+        pub struct $cfg;
+        impl CurveConfig for $cfg {
+            type BaseField = $fq;
+            type ScalarField = $fr;
+            const COFACTOR: &'static [u64] = $h;
+            const COFACTOR_INV: $fr = MontFp!($hinv);
+        }
+        impl SWCurveConfig for $cfg {
+            const COEFF_A: $fq = $a;
+            const COEFF_B: $fq = $b;
+            const GENERATOR: sw::Affine<Self> = sw::Affine::<Self>::new_unchecked($gx, $gy);
+        }
+    };
+}
+macro_rules! te_curve_x {
+    ($cfg:ident, $fq:ty, $fr:ty, $a:expr, $d:expr, $gx:expr, $gy:expr, $h:expr, $hinv:tt, $ma:expr, $mb:expr) => {
+        #[derive(Clone, Default, PartialEq, Eq)]
+        pub struct $cfg;
+        impl CurveConfig for $cfg {
+            type BaseField = $fq;
+            type ScalarField = $fr;
+            const COFACTOR: &'static [u64] = $h;
+            const COFACTOR_INV: $fr = MontFp!($hinv);
+        }
+        impl TECurveConfig for $cfg {
+            const COEFF_A: $fq = $a;
+            const COEFF_D: $fq = $d;
+            const GENERATOR: te::Affine<Self> = te::Affine::<Self>::new_unchecked($gx, $gy);
+            type MontCurveConfig = $cfg;
+        }
+        impl MontCurveConfig for $cfg {
+            const COEFF_A: $fq = $ma;
+            const COEFF_B: $fq = $mb;
+            type TECurveConfig = $cfg;
+        }
+    };
+}
+// ---- BEGIN generated by props/C09/mkext.py (do not edit by hand) ----
+// ---- END generated by props/C09/mkext.py ----
+
 fn dispatch(op: &str, a: &[Arg]) -> Vec<Arg> {
     let id = to_u64(&a[0][0]);
     if op.starts_with("f_") {
@@ -495,7 +548,7 @@ fn dispatch(op: &str, a: &[Arg]) -> Vec<Arg> {
             (24, 1) => run_field::<F11b>(op, a),
             (25, 1) => run_field::<F128e>(op, a),
             (26, 1) => run_field::<F256e>(op, a),
-            _ => unsupported(),
+            _ => dispatch_ext_field(id, tower, op, a),
         };
     }
     match id {
@@ -521,7 +574,7 @@ fn dispatch(op: &str, a: &[Arg]) -> Vec<Arg> {
         27 => run_te::<T128>(op, a),
         28 => run_te::<T256>(op, a),
         29 => run_te::<T256b>(op, a),
-        _ => unsupported(),
+        _ => dispatch_ext_curve(id, op, a),
     }
 }
 
